@@ -109,17 +109,16 @@ impl WireServerClient {
         let mut headers = HashMap::new();
         headers.insert("x-ms-version".to_string(), "2012-11-30".to_string());
 
+        let key = self
+            .key_keeper_shared_state
+            .get_current_key()
+            .await
+            .unwrap_or(None);
         hyper_client::get(
             &url,
             &headers,
-            self.key_keeper_shared_state
-                .get_current_key_guid()
-                .await
-                .unwrap_or(None),
-            self.key_keeper_shared_state
-                .get_current_key_value()
-                .await
-                .unwrap_or(None),
+            key.as_ref().map(|k| k.guid.to_string()),
+            key.map(|k| k.key),
             logger::write_warning,
         )
         .await
@@ -133,17 +132,16 @@ impl WireServerClient {
             .map_err(|e| Error::ParseUrl(url, e.to_string()))?;
         headers.insert("x-ms-version".to_string(), "2012-11-30".to_string());
 
+        let key = self
+            .key_keeper_shared_state
+            .get_current_key()
+            .await
+            .unwrap_or(None);
         hyper_client::get(
             &url,
             &headers,
-            self.key_keeper_shared_state
-                .get_current_key_guid()
-                .await
-                .unwrap_or(None),
-            self.key_keeper_shared_state
-                .get_current_key_value()
-                .await
-                .unwrap_or(None),
+            key.as_ref().map(|k| k.guid.to_string()),
+            key.map(|k| k.key),
             logger::write_warning,
         )
         .await
